@@ -3,6 +3,7 @@ package activitypub
 import (
 	"bytes"
 	"encoding/gob"
+	"encoding/json"
 	"fmt"
 	"io"
 	"reflect"
@@ -553,6 +554,14 @@ type (
 
 // UnmarshalJSON decodes an incoming JSON document into the receiver object.
 func (m *MimeType) UnmarshalJSON(data []byte) error {
+	if len(data) >= 2 && data[0] == '"' {
+		// a JSON string: decode its escapes
+		var str string
+		if err := json.Unmarshal(data, &str); err == nil {
+			*m = MimeType(str)
+			return nil
+		}
+	}
 	*m = MimeType(strings.Trim(string(data), "\""))
 	return nil
 }
